@@ -14,6 +14,21 @@ CLAIMED = {
     ),
 }
 
+CLAIMED["C13"] = dict(
+    category="translation_validation",
+    text="Destructuring patterns (depth <= 3, star at every position) x source kinds, subscript/slice stores with symbolic bounds, and the matrix 13 operators x target kind x operand kind x placement are converted by the real converter; exec(source) and eval(converted) are co-executed under CrossHair with symbolic source length/elements/operands and the logged target values, alias identity, dunder-call order and container load/store counts must coincide.",
+    design_ref="DESIGN.md section 4, C13",
+    note="Trusted: CPython, CrossHair+z3, helper classes Box/UV injected on both sides. Bounds: source length min..min+3, patterns <= 6 leaves, slice bounds -3..3, concrete operands for float/bitwise operators (CrossHair inconclusive on those).",
+    technique="symbolic co-execution of source and converted text under CrossHair (z3)",
+)
+CLAIMED["C07"] = dict(
+    category="translation_validation",
+    text="Statement templates in which every subexpression is a logging probe are converted by the real converter and co-executed symbolically with the source: the ordered probe log, container load/store events and logged values must coincide for every symbolic value that steers control (indices, truthiness).",
+    design_ref="DESIGN.md section 4, C07",
+    note="Trusted: CPython, CrossHair+z3, helper probe/Box injected on both sides. Bound: the template catalogue of vf/families/c07.py (exhaustive over statement forms and the 13 operators, not over expression shapes).",
+    technique="symbolic co-execution with probe-instrumented statement templates under CrossHair (z3)",
+)
+
 NOT_YET = {}
 
 NOT_APPLICABLE = {
